@@ -12,7 +12,13 @@ from harness.util import guarded, stack
 
 ID = 'C17'
 LEVEL = 'proof'
-LEVEL_TEXT = ('Unbounded Lean theorems: (1) distance criterion and packing bound for every valid [[n,k]] code (a '
+LEVEL_TEXT = ('Unbounded Lean theorems: (0) ALL SIZES of the hand-modelled 2-D surface codes '
+              '(Properties/C17<Class>.lean): Toric2DCode (Lx,Ly>=2), Planar2DCode and RotatedPlanar2DCode (Lx,Ly>=1) have '
+              'IsDistance n H (min Lx Ly) on the matrices assembled from the hand-written lattice model, and code.d (min weight '
+              'over the listed logicals) equals min(Lx,Ly), for every lattice size - upper bound: a listed line; lower bound: '
+              'packing with lattice translates (consecutive translates of a logical line differ by the row/column of generators '
+              'between them, so any operator commuting with all generators meets every translate); (1) distance criterion and '
+              'packing bound for every valid [[n,k]] code (a '
               'non-trivial logical anticommutes with some listed logical, by C04; d pairwise disjoint representatives '
               'modulo the stabilizer group force weight >= d); (2) soundness of the executable certificate checker '
               'checkDistance for every packed code and certificate (packing certificates: selection masks over the '
@@ -30,7 +36,9 @@ LEVEL_NOTE = ('trusted: Lean kernel + standard axioms; translator harness/regen_
               'Color666PlanarCode L=3..6 and Color666ToricCode L=2..4; Color666PlanarCode L=3 is checked natively '
               '(native_checked, thorough tier: 5.7 million pure X/Z operators below d=7). Sizes beyond the table bound and deformed codes are evaluated natively '
               'with the same proved-sound checker (trusted in addition: Lean compiler/runtime). All-sizes (unbounded '
-              'in L) lattice theorems are not proved; instance theorems are named ..._partial.')
+              'in L) distance theorems exist for Toric2DCode, Planar2DCode, RotatedPlanar2DCode only (undeformed codes; '
+              'trusted in addition: the correspondence harness tying the hand-written lattice models to the classes, as '
+              'in C01); the other 13 classes are covered by the bounded instance theorems (named ..._partial).')
 TECHNIQUE = ('Lean 4 proof: certificate-checker soundness (unbounded) + kernel-checked instance theorems over tables '
              'and certificates regenerated from the source; differential correspondence of code.d; independent '
              'meet-in-the-middle / MILP search for lighter logical operators on the implementation')
@@ -44,6 +52,10 @@ RULE = ('stream 1: one `dist` op per (class, size, deformation): model distance 
         'code.d; stream 2: one `checkdistance` op per (class, size, deformation, certificate): proved-sound checker '
         'evaluated natively on live matrices, expected answer from an independent Python evaluation of the same '
         'certificate (including deliberately wrong certificates / overstated d)')
+
+# all-sizes distance theorems of the hand-modelled classes (built and axiom-audited with C17)
+ALLSIZES_CLASSES = ['Toric2DCode', 'Planar2DCode', 'RotatedPlanar2DCode']
+PROPERTY_MODULES = ['PanqecVerif.Properties.C17'] + [f'PanqecVerif.Properties.C17{c}' for c in ALLSIZES_CLASSES]
 
 # instances of the regenerated tables for which no certificate is expected (see LEVEL_NOTE)
 EXPECTED_UNCERTIFIED = {
